@@ -55,7 +55,19 @@ def gen_coqproject():
     write_if_changed(os.path.join(COQ, "_CoqProject"), "-Q theories Avfs\n" + "\n".join(vs) + "\n")
 
 
+def load_translators():
+    """Import every lib/vcheck/*gen.py module (each appends its translator to GENERATORS)."""
+    import importlib, pkgutil
+    pkg = __name__.rsplit(".", 1)[0]
+    for m in pkgutil.iter_modules([os.path.dirname(os.path.abspath(__file__))]):
+        if m.name.endswith("gen") and m.name != "gen":
+            importlib.import_module(pkg + "." + m.name)
+
+
 def regenerate_all():
+    load_translators()
+    from . import props
+    props.load_all()   # check modules register their source-to-Coq translators in GENERATORS
     for g in GENERATORS:
         g()
     gen_extract()
